@@ -283,6 +283,9 @@ def run(tier, rep):
                   "let g = |f, a| f(f, a);", "let g = |f| |a| f(f)(a);", "let h = |x| x; let g = |f| h(f)(f);",
                   "let r = ref(|a: int32| a); let _ = ref_set(r, |a| ref_get(r));", "let g = |f| { let k = f; k(k) };"]
     add_texts("occurs", ["enum Opt[T] { None_, Some_(T) }\nfn main() -> unit {\n    " + b + "\n    ()\n}\n" for b in occ_bodies])
+    # ---- A2c programs whose instance closure is infinite (polymorphic recursion) or finite: monomorphisation must end
+    import fam_c07
+    add_texts("polyrec", [t for _, t, _ in fam_c07.polyrec_programs()])
     # ---- A3 nesting, moderate depth in process
     add_texts("nest", [nest(k, d) for k in NEST_KINDS for d in ((16, 64) if quick else (16, 64, 200))])
     # ---- A4 program families (well-typed) and ill-typed variants
